@@ -69,6 +69,8 @@ def units_for(tier):
     U.append(('lists-arrays-records', by['F6'][100:104] + by['F6'][300:304] + by['F6'][500:504]))
     U.append(('generators-closures', by['F4'][200:206] + by['F5'][:6]))
     U.append(('bignums-domains-exceptions', bi + by['F9'][:3] + by['F7'][10:14]))
+    # the same without the recursive local functions of F5R, which -Q9 (unlimited inlining) never finishes compiling
+    U.append(('bignums-domains-exceptions-norec', [(f, c) for f, c in by['F6'] if c[0] == 'BI'][:4] + by['F9'][:3] + by['F7'][10:14]))
     if tier == 'thorough':
         U.append(('optimiser-bait', by['F10'][:12]))
         U.append(('generators-2', by['F4'][600:612]))
@@ -83,7 +85,11 @@ def main(tier):
     units = units_for(tier)
     prepared = []
     for name, u in units:
+        if tier == 'quick' and name.endswith('-norec'):
+            continue
         for q in ((1,) if tier == 'quick' else (1, 9)):
+            if (name == 'bignums-domains-exceptions' and q == 9) or (name.endswith('-norec') and q != 9):
+                continue
             d = mkdir('%s/%s-Q%d' % (ck.work, name, q))
             src = write(d + '/u.as', progrun.unit_text(u))
             exe, r = tc.cexe(src, ('-Q%d' % q,), d)
